@@ -620,7 +620,9 @@ func VerifyLinkSignatureThesholds(layout Layout,
 		// Store all good links for a step
 		stepsMetadataVerified[step.Name] = linksPerStepVerified
 
-		if len(linksPerStepVerified) < step.Threshold {
+		// A step needs at least one verified link, whatever its threshold says:
+		// the stages that follow take a link for every step for granted
+		if len(linksPerStepVerified) < step.Threshold || len(linksPerStepVerified) < 1 {
 			linksPerStep := stepsMetadata[step.Name]
 			return nil, fmt.Errorf("step '%s' requires '%d' link metadata file(s)."+
 				" '%d' out of '%d' available link(s) have a valid signature from an"+
